@@ -1353,3 +1353,34 @@ Proof.
   intros A L. assert (Lb : (n <? - hrand_max) = true) by (apply Z.ltb_lt; exact L).
   unfold exec_hrandfield. rewrite A, Lb. reflexivity.
 Qed.
+
+(* ------------------------------------------------------------------ HSET against the abstract map, at the level of a step *)
+Theorem hstep_hset_refines d now nowms c0 k f v hint h :
+  db_wf d -> lower c0 = B "hset" -> hash_or_empty (purge d now) k = Some h ->
+  let r := fst (hstep d (mkH now nowms [c0; k; f; v] hint)) in
+  let d' := snd (hstep d (mkH now nowms [c0; k; f; v] hint)) in
+  r = RInt (if hview h f then 0 else 1) /\
+  hfield d' k f = Some v /\
+  (forall f0, f0 <> f -> hfield d' k f0 = hview h f0) /\
+  (forall k0, k0 <> k -> raw_view d' k0 = view d now k0) /\
+  db_ttl d' k = db_ttl (purge d now) k /\
+  db_wf d'.
+Proof.
+  intros W L H. cbv zeta. unfold hstep. cbn [c_args c_now c_nowms c_hint]. rewrite L, dispatch_hset.
+  rewrite (exec_hset_one _ _ _ _ _ _ H). cbn [fst snd]. split; [|split; [|split; [|split; [|split]]]].
+  - unfold hview, amem. destruct (alookup f h); reflexivity.
+  - unfold hfield, hview. rewrite hash_at_set. apply alookup_aset_same.
+  - intros f0 N. unfold hfield, hview. rewrite hash_at_set. apply alookup_aset_other. exact N.
+  - intros k0 N. rewrite raw_view_set_other by exact N. apply raw_view_purge. exact W.
+  - reflexivity.
+  - apply db_wf_set. apply db_wf_purge. exact W.
+Qed.
+
+(* a hash past its deadline is a missing key: HGET answers nil, HLEN 0, and a write starts afresh *)
+Theorem hstep_expired_missing d now nowms c1 k f hint :
+  lower c1 = B "hget" -> expired d now k = true ->
+  fst (hstep d (mkH now nowms [c1; k; f] hint)) = RNil.
+Proof.
+  intros L E. unfold hstep. cbn [c_args c_now c_nowms c_hint]. rewrite L, dispatch_hget.
+  unfold exec_hget, hash_or_empty. rewrite (expired_is_missing d now k E). reflexivity.
+Qed.
